@@ -15,21 +15,24 @@ CHECK = 'check_case'
 SHARD_SIZE = 300
 RULE = ('four case kinds, each a generated layout + an operation history of depth 1..8 run on a freshly built real module '
         '(client operations through the real Dispatcher._setParameterValue/_getParameterValue, driver operations through '
-        'the wrapped read_/write_ methods, attribute assignment, update_target, or a change of the fake hardware): '
+        'the wrapped read_/write_ methods, attribute assignment, update_target, a change of the fake hardware or of its fault script): '
         'st = struct of 1..3 members, with combined read_/write_ (both, read only, write only) or with per-member '
-        'read_/write_ subsets; fe = float/enum pair over 1..5 labels (implicit/explicit indices, explicit/parsed values, '
+        'read_/write_ subsets, user methods raising per script (HardwareError on read, RangeError on write) also in the middle of the '
+        'generated struct read/write loops; fe = float/enum pair over 1..5 labels (implicit/explicit indices, explicit/parsed values, '
         'ties, descending tables, with/without read_idx/write_idx); li = base parameter with every non-empty subset of '
-        '{_min,_max,_limits} plus a LimitsType parameter; co = 1..3 controllers registered in random name order on one output. '
-        'After every operation the result, the update events in order and the cached values of all parameters are compared with '
-        'the model.  A case is non-trivial when at least one operation produced an update event; distinct = distinct '
-        '(kind, layout, ops).  On top of the seeded random histories: exhaustive histories over 6-8 letter alphabets on 9 representative '
-        'layouts, depth <= 2 in quick, depth <= 4 in thorough.')
+        '{_min,_max,_limits} plus a LimitsType parameter; co = 1..3 controllers registered in random name order on one output, each '
+        'plain / writing the output target on switch-off (picontrol style) / raising on switch-off per script. '
+        'After every operation the result, the update events (value and error updates) in order and the cached values and error flags '
+        'of all parameters are compared with the model.  A case is non-trivial when at least one operation produced an update event; '
+        'distinct = distinct (kind, layout, ops).  On top of the seeded random histories: exhaustive histories over 6-9 letter '
+        'alphabets on 12 representative layouts, depth <= 2 in quick, depth <= 4 in thorough.')
 ASSUMPTIONS = [
     'omit_unchanged_within = 0 (every announceUpdate is delivered); single thread (accessLock/updateLock not exercised)',
     'member / limit / target values are integers inside the generated ranges or one step outside; FloatEnum values are multiples of 0.5 '
     '(python float arithmetic on them is exact), explicit enum indices are strictly increasing',
-    'user read_/write_ methods of the fake driver never raise and store exactly what they are given; a hardware failure in the '
-    'middle of a generated struct read/write is not modelled (see notes/C18.md)',
+    'user read_/write_ methods of the fake driver store exactly what they are given; they raise only as scripted (one error kind per '
+    'direction: HardwareError on read, RangeError on write); a parameter in error state (last update was an error update) is not '
+    'compared by the oracle',
     'the label parser (regex + float()) of FloatEnumParam is python runtime: the parsed number enters the model as data',
 ]
 
@@ -141,20 +144,37 @@ def _run_st(case):
     names = [prefix + MEMBERS[i] for i in range(n)]
     ns = {'st': StructParam('struct', {MEMBERS[i]: Parameter(MEMBERS[i], IntRange(ST_LO, ST_HI)) for i in range(n)},
                             prefix, readonly=False)}
+    from frappy.errors import HardwareError, RangeError
+
+    def flag(lst, i):
+        return i < len(lst) and lst[i]
+
     if L['rw']:
         if L['sr']:
-            ns['read_st'] = lambda self: {MEMBERS[i]: self.hw[i] for i in range(n)}
+            def read_st(self):
+                if flag(self.frd, 0):
+                    raise HardwareError('scripted')
+                return {MEMBERS[i]: self.hw[i] for i in range(n)}
+            ns['read_st'] = read_st
         if L['sw']:
             def write_st(self, value):
+                if flag(self.fwr, 0):
+                    raise RangeError('scripted')
                 self.hw = [int(value[MEMBERS[i]]) for i in range(n)]
                 return {MEMBERS[i]: self.hw[i] for i in range(n)}
             ns['write_st'] = write_st
     else:
         for i in range(n):
             if L['mr'][i]:
-                ns['read_' + names[i]] = lambda self, i=i: self.hw[i]
+                def rm(self, i=i):
+                    if flag(self.frd, i):
+                        raise HardwareError('scripted')
+                    return self.hw[i]
+                ns['read_' + names[i]] = rm
             if L['mw'][i]:
                 def wm(self, value, i=i):
+                    if flag(self.fwr, i):
+                        raise RangeError('scripted')
                     self.hw[i] = int(value)
                     return self.hw[i]
                 ns['write_' + names[i]] = wm
@@ -162,6 +182,7 @@ def _run_st(case):
     env = _Env()
     m = env.add(cls, 'm')
     m.hw = [0] * n
+    m.frd, m.fwr = [], []
     env.init(m)
     pid = {'_st': 0}
     for i, nm in enumerate(names):
@@ -171,12 +192,15 @@ def _run_st(case):
         return [_num(d[MEMBERS[i]]) for i in range(n)]
 
     def snap():
-        return [sval(m.st), [_num(getattr(m, nm)) for nm in names]]
+        return [sval(m.st), [_num(getattr(m, nm)) for nm in names],
+                [int(isinstance(m.parameters[p].readerror, HardwareError)) for p in ['st'] + names]]
 
     def events():
         res = []
         for mod, p, v, e in env.take():
-            if e is not None:
+            if e == 'HardwareError' and p in pid:
+                res.append([100 + pid[p], []])
+            elif e is not None:
                 res.append([99, [], e])
             else:
                 res.append([pid.get(p, 98), sval(v) if p == '_st' else [_num(v)]])
@@ -207,10 +231,12 @@ def _run_st(case):
         elif k == 'hw':
             m.hw = list(op[1])
             r = {'ok': []}
+        elif k == 'fault':
+            m.frd, m.fwr = list(op[1]), list(op[2])
+            r = {'ok': []}
         else:
             raise ValueError(op)
-        steps.append({'res': r, 'events': events(), 'snap': snap(),
-                      'errs': [p for p in m.parameters if m.parameters[p].readerror and p in (['st'] + names)]})
+        steps.append({'res': r, 'events': events(), 'snap': snap()})
     return {'init': init, 'steps': steps}
 
 
@@ -368,7 +394,25 @@ def _co_classes():
                 self.activate_control()
                 return value
 
-        _CO_CLASSES['out'], _CO_CLASSES['ctl'] = Out, Ctl
+        from frappy.errors import HardwareError
+
+        class CtlSafe(Ctl):
+            # like frappy_psi.picontrol: switching control off puts the output to a safe value first
+            def set_control_active(self, active):
+                if not active:
+                    self.output_module.write_target(0)
+                super().set_control_active(active)
+
+        class CtlFail(Ctl):
+            # the hardware may not answer when control is to be switched off
+            fail = False
+
+            def set_control_active(self, active):
+                if not active and self.fail:
+                    raise HardwareError('scripted: no answer')
+                super().set_control_active(active)
+
+        _CO_CLASSES['out'], _CO_CLASSES['ctl'] = Out, [Ctl, CtlSafe, CtlFail]
     return _CO_CLASSES['out'], _CO_CLASSES['ctl']
 
 
@@ -378,7 +422,8 @@ def _run_co(case):
     names = L['names']            # controller names in registration order
     env = _Env()
     out = env.add(Out, 'out')
-    ctl = [env.add(Ctl, nm, {'output_module': 'out'}) for nm in names]
+    kinds = L.get('kinds') or [0] * len(names)
+    ctl = [env.add(Ctl[kd], nm, {'output_module': 'out'}) for nm, kd in zip(names, kinds)]
     env.init(out)
     for c in ctl:                 # initModule registers the input on the output
         env.init(c)
@@ -412,6 +457,10 @@ def _run_co(case):
             r = _attempt(lambda: [_num(env.change(out, 'target', op[1]) if op[2] == 'c' else out.write_target(op[1]))])
         elif k == 'updT':
             r = _attempt(lambda: out.update_target(names[op[1]], op[2]) or [])
+        elif k == 'cfault':
+            for c, f in zip(ctl, op[1]):
+                c.fail = bool(f)
+            r = {'ok': []}
         else:
             raise ValueError(op)
         steps.append({'res': r, 'events': events(), 'snap': snap(),
@@ -428,7 +477,7 @@ def zl(xs):
 def enc_res(r):
     if 'ok' in r:
         return f'(ROk {zl(r["ok"])})'
-    return f'(RErr {gal.nat(1 if r["err"] == "RangeError" else 2)})'
+    return f'(RErr {gal.nat({"RangeError": 1, "HardwareError": 3}.get(r["err"], 2))})'
 
 
 def enc_obs(s):
@@ -451,7 +500,8 @@ def enc_op(kind, op):
         return {'readS': lambda: 'St.ReadS', 'readM': lambda: f'(St.ReadM {gal.nat(op[1])})',
                 'writeS': lambda: f'(St.WriteS {zl(op[1])})', 'writeM': lambda: f'(St.WriteM {gal.nat(op[1])} {gal.z(op[2])})',
                 'setS': lambda: f'(St.SetS {zl(op[1])})', 'setM': lambda: f'(St.SetM {gal.nat(op[1])} {gal.z(op[2])})',
-                'hw': lambda: f'(St.Hw {zl(op[1])})'}[k]()
+                'hw': lambda: f'(St.Hw {zl(op[1])})',
+                'fault': lambda: f'(St.Fault {gal.lst(op[1], gal.boolean)} {gal.lst(op[2], gal.boolean)})'}[k]()
     if kind == 'fe':
         return {'writeF': lambda: f'(Fe.WriteF {gal.z(op[1])})', 'writeI': lambda: f'(Fe.WriteI {gal.z(op[1])})',
                 'readF': lambda: f'(Fe.ReadF {by(op[1])})', 'readI': lambda: 'Fe.ReadI',
@@ -465,7 +515,8 @@ def enc_op(kind, op):
                 'setMin': lambda: f'(Li.SetMin {gal.z(op[1])})', 'setMax': lambda: f'(Li.SetMax {gal.z(op[1])})',
                 'setLim': lambda: f'(Li.SetLim {gal.z(op[1])} {gal.z(op[2])})'}[k]()
     return {'writeT': lambda: f'(Co.WriteT {gal.nat(op[1])} {gal.z(op[2])})', 'writeO': lambda: f'(Co.WriteO {gal.z(op[1])})',
-            'updT': lambda: f'(Co.UpdT {gal.nat(op[1])} {gal.z(op[2])})'}[k]()
+            'updT': lambda: f'(Co.UpdT {gal.nat(op[1])} {gal.z(op[2])})',
+            'cfault': lambda: f'(Co.CFault {gal.lst(op[1], gal.boolean)})'}[k]()
 
 
 def enc_layout(kind, L):
@@ -484,7 +535,7 @@ def enc_layout(kind, L):
     if kind == 'li':
         return ('{| Li.l_lo := %s; Li.l_hi := %s; Li.l_min := %s; Li.l_max := %s; Li.l_lim := %s |}'
                 % (gal.z(L['lo']), gal.z(L['hi']), gal.boolean(L['min']), gal.boolean(L['max']), gal.boolean(L['lim'])))
-    return gal.nat(len(L['names']))
+    return gal.lst(L.get('kinds') or [0] * len(L['names']), gal.nat)
 
 
 def encode(case, obs):
@@ -529,26 +580,42 @@ def oracle(case, obs):
 
     if kind == 'st':
         n = L['n']
+        # a parameter whose last update was an error update (a fault of the fake driver) shows no value: the struct and
+        # a member are compared while neither of them is in that state
         stream = [list(obs['init'][0]), list(obs['init'][1])]      # what a client that activated at start has seen
+        sflag = [0] * (n + 1)
         prev_bad, prev_sbad = set(), set()
+        origin, sorigin = {}, {}       # member -> op at which the (possibly not yet visible) disagreement arose
         for k in range(-1, len(steps)):
             snap = obs['init'] if k < 0 else steps[k]['snap']
             if k >= 0:
                 for e in steps[k]['events']:
                     if len(e) > 2:
                         continue
-                    if e[0] == 0:
+                    if 100 <= e[0] <= 100 + n:
+                        sflag[e[0] - 100] = 1
+                    elif e[0] == 0:
                         stream[0] = list(e[1])
+                        sflag[0] = 0
                     elif 1 <= e[0] <= n:
                         stream[1][e[0] - 1] = e[1][0]
-            bad = {i for i in range(n) if snap[0][i] != snap[1][i]}
-            sbad = {i for i in range(n) if stream[0][i] != stream[1][i]}
+                        sflag[e[0]] = 0
+            flags = snap[2]
+            for org, a, b in ((origin, snap[0], snap[1]), (sorigin, stream[0], stream[1])):
+                for i in range(n):
+                    if a[i] != b[i]:
+                        org.setdefault(i, k)
+                    else:
+                        org.pop(i, None)
+            bad = {i for i in origin if not flags[0] and not flags[i + 1]}
+            sbad = {i for i in sorigin if not sflag[0] and not sflag[i + 1]}
             for i in sorted(bad - prev_bad):
                 fail('struct-agree', f'after op {k} ({ops[k] if k >= 0 else "init"}): struct member {MEMBERS[i]} is '
-                     f'{snap[0][i]} but parameter {L["prefix"] + MEMBERS[i]} is {snap[1][i]}', k)
+                     f'{snap[0][i]} but parameter {L["prefix"] + MEMBERS[i]} is {snap[1][i]} (differing since op {origin[i]})',
+                     k, member=i, origin=origin[i])
             for i in sorted((sbad - prev_sbad) - bad):
                 fail('struct-agree', f'after op {k}: update stream shows struct member {MEMBERS[i]} = {stream[0][i]} '
-                     f'but member parameter = {stream[1][i]}', k)
+                     f'but member parameter = {stream[1][i]} (differing since op {sorigin[i]})', k, member=i, origin=sorigin[i])
             prev_bad, prev_sbad = bad, sbad
 
     elif kind == 'fe':
@@ -623,6 +690,7 @@ def oracle(case, obs):
     elif kind == 'co':
         names = L['names']
         stream = [list(x) for x in obs['init']]
+        was_bad = {'module': False, 'stream': False}      # a violation is reported when it arises
         for k in range(-1, len(steps)):
             snap = obs['init'] if k < 0 else steps[k]['snap']
             if k >= 0:
@@ -638,24 +706,33 @@ def oracle(case, obs):
                 named = obs['members'] if k < 0 else steps[k]['members']
                 byname = {v: nm for nm, v in named.items()}.get(sn[0][0])
                 label = f'after op {k} ({ops[k] if k >= 0 else "init"}) [{view}]'
+                what = None
                 if len(active) > 1:
-                    fail('single-controller', f'{label}: {[names[j] for j in active]} are all marked as controlling', k)
+                    what = f'{label}: {[names[j] for j in active]} are all marked as controlling'
                 elif len(active) == 1 and byname != names[active[0]]:
-                    fail('single-controller', f'{label}: {names[active[0]]} is marked as controlling but the output names {byname}', k)
+                    what = f'{label}: {names[active[0]]} is marked as controlling but the output names {byname}'
                 elif not active and byname != 'self':
-                    fail('single-controller', f'{label}: nobody is marked as controlling but the output names {byname}', k)
+                    what = f'{label}: nobody is marked as controlling but the output names {byname}'
+                if what and not was_bad[view] and not (view == 'stream' and was_bad['module']):
+                    fail('single-controller', what, k, view=view, marked=active)
+                was_bad[view] = bool(what)
             if k >= 0 and ops[k][0] == 'writeT' and 'ok' in steps[k]['res']:
                 j = ops[k][1]
                 if not snap[1][j] or any(a for i, a in enumerate(snap[1]) if i != j):
                     fail('single-controller', f'after op {k}: {names[j]} took over but control flags are {snap[1]}', k)
     for k, s in enumerate(steps):
         if any(len(e) > 2 for e in s['events']):
-            fail('error-state', f'op {k} ({ops[k]}) produced an error update although the fake driver never fails', k)
+            fail('error-state', f'op {k} ({ops[k]}) produced an error update that no scripted fault explains', k)
     return fails
 
 
+def _onset(failure):
+    """index of the operation at which the reported inconsistency arose"""
+    return failure.get('origin', failure.get('op_index', -2))
+
+
 def _onset_op(case, failure):
-    k = failure.get('op_index', -2)
+    k = _onset(failure)
     return case['ops'][k] if 0 <= k < len(case['ops']) else None
 
 
@@ -693,7 +770,44 @@ def _cls_li_shadow(case, obs, failure):
             and bool(failure.get('outside')) and all(o.startswith('a_min=') or o.startswith('a_max=') for o in failure['outside']))
 
 
+def _cls_struct_write_partial(case, obs, failure):
+    """generated write_<struct> aborted by a raising member write after earlier members were written: the struct keeps the
+    old values of those members (the disagreement arises at the failing struct write itself)"""
+    op = _onset_op(case, failure)
+    return (case['kind'] == 'st' and failure['class'] == 'struct-agree' and not case['layout']['rw']
+            and op is not None and op[0] == 'writeS' and 'err' in obs['steps'][_onset(failure)]['res'])
+
+
+def _cls_struct_read_partial(case, obs, failure):
+    """generated read_<struct> aborted by a raising member read after earlier members were refreshed: struct (in error
+    state) and member differ since that read; it shows when a later member update republishes the stale struct"""
+    op = _onset_op(case, failure)
+    return (case['kind'] == 'st' and failure['class'] == 'struct-agree' and not case['layout']['rw']
+            and op is not None and op[0] == 'readS' and 'err' in obs['steps'][_onset(failure)]['res'])
+
+
+def _cls_co_switch_off_fails(case, obs, failure):
+    """write of the output's own target while the controlling module's set_control_active(False) raises: self_controlled has
+    already set controlled_by = self"""
+    op = _onset_op(case, failure)
+    k = failure.get('op_index', -2)
+    if not (case['kind'] == 'co' and failure['class'] == 'single-controller' and op is not None and op[0] == 'writeO'
+            and 'err' in obs['steps'][k]['res']):
+        return False
+    kinds = case['layout'].get('kinds') or []
+    flags = []
+    for o in case['ops'][:k]:
+        if o[0] == 'cfault':
+            flags = o[1]
+    marked = [j for j, a in enumerate(obs['steps'][k]['snap'][1]) if a]
+    return (len(marked) == 1 and marked[0] < len(kinds) and kinds[marked[0]] == 2 and marked[0] < len(flags)
+            and bool(flags[marked[0]]) and obs['steps'][k]['snap'][0] == [0])
+
+
 FINDING_CLASSIFIERS = {
+    'struct_write_partial_failure': _cls_struct_write_partial,
+    'struct_read_partial_failure': _cls_struct_read_partial,
+    'self_controlled_switch_off_fails': _cls_co_switch_off_fails,
     'struct_assign_without_combined_methods': _cls_struct_assign,
     'member_assign_with_combined_methods': _cls_member_assign,
     'floatenum_initial_cache': _cls_fe_initial,
@@ -744,7 +858,18 @@ def gen_st_layout(rng):
 
 def gen_st_op(rng, L, allow_unsafe=True):
     n = L['n']
-    k = rng.choice(['readS', 'readM', 'writeS', 'writeM', 'writeM', 'setS', 'setM', 'hw'])
+    k = rng.choice(['readS', 'readS', 'readM', 'writeS', 'writeS', 'writeM', 'writeM', 'setS', 'setM', 'hw', 'fault', 'fault'])
+    if k == 'fault':
+        r = rng.random()
+        rd, wr = [False] * n, [False] * n
+        if r < 0.35:
+            rd[rng.randrange(n)] = True
+        elif r < 0.7:
+            wr[rng.randrange(n)] = True
+        elif r < 0.8:
+            rd = [rng.random() < 0.5 for _ in range(n)]
+            wr = [rng.random() < 0.5 for _ in range(n)]
+        return ['fault', rd, wr]
     if k == 'readS':
         return ['readS', _by(rng)]
     if k == 'readM':
@@ -859,12 +984,16 @@ CO_NAMES = ['zeta', 'alpha', 'mid', 'loop1', 'b2']
 
 
 def gen_co_layout(rng):
-    return {'names': rng.sample(CO_NAMES, rng.randint(1, 3))}
+    names = rng.sample(CO_NAMES, rng.randint(1, 3))
+    return {'names': names, 'kinds': [rng.choice([0, 0, 1, 1, 2, 2]) for _ in names]}
 
 
 def gen_co_op(rng, L):
     n = len(L['names'])
-    k = rng.choice(['writeT', 'writeT', 'writeO', 'updT'])
+    k = rng.choice(['writeT', 'writeT', 'writeT', 'writeO', 'writeO', 'updT', 'cfault'])
+    if k == 'cfault':
+        kinds = L.get('kinds') or [0] * n
+        return ['cfault', [kd == 2 and rng.random() < 0.7 for kd in kinds]]
     if k == 'writeT':
         return ['writeT', rng.randrange(n), rng.randint(-9, 9), _by(rng)]
     if k == 'writeO':
@@ -896,9 +1025,27 @@ def exhaustive_cases(depth):
         for d in range(1, depth + 1):
             for ops in itertools.product(alpha, repeat=d):
                 yield {'kind': 'st', 'layout': L, 'ops': [list(o) for o in ops]}
-    # control: 3 controllers
-    L = {'names': ['zeta', 'alpha', 'mid']}
+    # struct with faults of the fake driver
+    T, F = True, False
+    for L, alpha in (
+            ({'n': 2, 'prefix': '', 'rw': False, 'sr': False, 'sw': False, 'mr': [True, True], 'mw': [True, True]},
+             [['readS', 'c'], ['writeS', [1, 2], 'c'], ['writeM', 0, 3, 'c'], ['readM', 1, 'c'], ['hw', [8, 9]],
+              ['fault', [F, T], [F, F]], ['fault', [F, F], [F, T]], ['fault', [F, F], [T, F]], ['fault', [F, F], [F, F]]]),
+            ({'n': 2, 'prefix': 'p_', 'rw': True, 'sr': True, 'sw': True, 'mr': [False] * 2, 'mw': [False] * 2},
+             [['readS', 'c'], ['readM', 0, 'd'], ['writeM', 1, 3, 'c'], ['writeS', [1, 2], 'c'], ['hw', [8, 9]],
+              ['fault', [T, F], [F, F]], ['fault', [F, F], [T, F]], ['fault', [F, F], [F, F]]])):
+        for d in range(1, depth + 1):
+            for ops in itertools.product(alpha, repeat=d):
+                yield {'kind': 'st', 'layout': L, 'ops': [list(o) for o in ops]}
+    # control: 3 plain controllers; then a safe-value writer, a possibly failing one and a plain one
+    L = {'names': ['zeta', 'alpha', 'mid'], 'kinds': [0, 0, 0]}
     alpha = [['writeT', 0, 1, 'c'], ['writeT', 1, 2, 'd'], ['writeT', 2, 3, 'c'], ['writeO', 4, 'c'], ['updT', 0, 5], ['updT', 2, 6]]
+    for d in range(1, depth + 1):
+        for ops in itertools.product(alpha, repeat=d):
+            yield {'kind': 'co', 'layout': L, 'ops': [list(o) for o in ops]}
+    L = {'names': ['zeta', 'alpha', 'mid'], 'kinds': [1, 2, 0]}
+    alpha = [['writeT', 0, 1, 'c'], ['writeT', 1, 2, 'd'], ['writeT', 2, 3, 'c'], ['writeO', 4, 'c'], ['updT', 0, 5],
+             ['cfault', [F, T, F]], ['cfault', [F, F, F]]]
     for d in range(1, depth + 1):
         for ops in itertools.product(alpha, repeat=d):
             yield {'kind': 'co', 'layout': L, 'ops': [list(o) for o in ops]}
@@ -927,7 +1074,7 @@ def exhaustive_cases(depth):
 
 def gen_cases(seed, tier):
     rng = random.Random(seed * 1000003 + 18)
-    per_kind = {'quick': 1500, 'thorough': 25000, 'search': 25000}[tier]
+    per_kind = {'quick': 1200, 'thorough': 25000, 'search': 25000}[tier]
     cases = []
     for kind in ('st', 'fe', 'li', 'co'):
         cases.extend(rand_case(rng, kind) for _ in range(per_kind))
